@@ -276,15 +276,16 @@ theorem liveSets_spec (sigma : List Nat) (gen : Nat → Bool) (all : List (List 
 
 /-! ### the search decides the specification -/
 
-theorem hasDeadEnd?_spec (sigma : List Nat) (gen : Nat → Bool) (r : RE) (hs : ∀ b, b ∈ r.syms → b ∈ sigma)
-    (b : Bool) (h : hasDeadEnd? sigma gen r = some b) : b = true ↔ DeadEndSpec r gen := by
+theorem hasDeadEndWith?_spec (fuel : Nat) (sigma : List Nat) (gen : Nat → Bool) (r : RE)
+    (hs : ∀ b, b ∈ r.syms → b ∈ sigma)
+    (b : Bool) (h : hasDeadEndWith? fuel sigma gen r = some b) : b = true ↔ DeadEndSpec r gen := by
   have hsy : SymsOk sigma [r] := by
     intro x hx c hc
     simp only [List.mem_singleton] at hx
     subst hx
     exact hs c hc
-  unfold hasDeadEnd? at h
-  cases hr : reachSets sigma 200000 [[r]] [] with
+  unfold hasDeadEndWith? at h
+  cases hr : reachSets sigma fuel [[r]] [] with
   | none => rw [hr] at h; cases h
   | some all =>
     rw [hr] at h
@@ -349,5 +350,10 @@ theorem hasDeadEnd?_spec (sigma : List Nat) (gen : Nat → Bool) (r : RE) (hs : 
       have hc' : L.any (RE.sameSet · rs') = true := by simpa using hc
       obtain ⟨l, hl1, hl2⟩ := (any_sameSet_iff _ _).1 hc'
       exact hno (((hl2.trans he).genLive gen).1 (hL.sound l hl1))
+
+/-- **the search of op `c06` decides the specification whenever it answers** -/
+theorem hasDeadEnd?_spec (sigma : List Nat) (gen : Nat → Bool) (r : RE) (hs : ∀ b, b ∈ r.syms → b ∈ sigma)
+    (b : Bool) (h : hasDeadEnd? sigma gen r = some b) : b = true ↔ DeadEndSpec r gen :=
+  hasDeadEndWith?_spec 200000 sigma gen r hs b h
 
 end PM
